@@ -67,3 +67,34 @@ Definition vmsg_of_sexp (s : sexp) : vmsg :=
 
 Definition d_spec_viewer (a : sexp) : sexp :=
   L [sZs (List.concat (map vwire (map vmsg_of_sexp (as_list a))))].
+
+(** "spec_zrle": the ZRLE theorem's spec side: tiles as C02_zrle_roundtrip quantifies over them -> the inflated
+    tile stream ([wire_ztile]) and the callbacks promised ([zevents]).  The harness deflates the stream itself. *)
+From VD Require Import Proofs.ZrleP.
+
+Definition cpx_of_sexp (s : sexp) : cpx :=
+  match as_Zs s with [r; g; b] => (r, g, b) | _ => (0, 0, 0) end.
+
+Definition ztile_of_sexp (s : sexp) : ztile :=
+  match as_list s with
+  | [I 0; px] => ZRaw (map cpx_of_sexp (as_list px))
+  | [I 1; c] => ZSolid (cpx_of_sexp c)
+  | [I 2; runs] => ZPlain (map (fun q => match as_list q with [c; I k; I r] => (cpx_of_sexp c, Z.to_nat k, r) | _ => ((0, 0, 0), O, 0) end) (as_list runs))
+  | [I 3; pal; items] =>
+      ZPal (map cpx_of_sexp (as_list pal))
+           (map (fun q => match as_list q with
+                          | [I 0; I i] => PSingle i
+                          | [I 1; I i; I k; I r] => PRun i (Z.to_nat k) r
+                          | _ => PSingle 0
+                          end) (as_list items))
+  | [I 4; pal; bs] => ZPacked (map cpx_of_sexp (as_list pal)) (as_Zs bs)
+  | _ => ZSolid (0, 0, 0)
+  end.
+
+Definition d_spec_zrle (a : sexp) : sexp :=
+  match as_list a with
+  | [I x; I y; I w; I h; ts] =>
+      let tiles := map ztile_of_sexp (as_list ts) in
+      L [sZs (List.concat (map wire_ztile tiles)); L (map sexp_of_ev (zevents x y w h tiles x y))]
+  | _ => sErr
+  end.
